@@ -47,9 +47,18 @@ Definition sweep_port : list (Z * stmt) :=
                                          ++ (if String.eqb a "EAX" then [] else [(m, SMnem "IN" [ident a; num 96])]   (* IN EAX,imm8 is diagnosed by pass 1 *)
                                          )) ["AL"; "AX"; "EAX"]) modes.
 
+(* MOV between every 16-bit general register and every segment register, both directions, both modes
+   (MOV CS,r16 is not a valid instruction and is left out) *)
+Definition sregs := ["ES"; "CS"; "SS"; "DS"; "FS"; "GS"].
+Definition sweep_sreg : list (Z * stmt) :=
+  flat_map (fun m => flat_map (fun r => flat_map (fun sr =>
+     (m, SMnem "MOV" [ident r; ident sr]) :: (if String.eqb sr "CS" then [] else [(m, SMnem "MOV" [ident sr; ident r])])) sregs) r16) modes.
+
 Lemma sweep_rr_ok : forallb ok01 sweep_rr = true.
 Proof. vm_compute. reflexivity. Qed.
 Lemma sweep_ri_ok : forallb ok01 sweep_ri = true.
+Proof. vm_compute. reflexivity. Qed.
+Lemma sweep_sreg_ok : forallb ok01 sweep_sreg = true.
 Proof. vm_compute. reflexivity. Qed.
 Lemma sweep_stack_ok : forallb ok01 sweep_stack = true.
 Proof. vm_compute. reflexivity. Qed.
